@@ -133,6 +133,7 @@ type Enc struct {
 	lastRelease    map[*LockDecl]*State
 	lastAcquire    map[*LockDecl]*State
 	atArgTypes     []types.Type
+	beforeDone     bool // the `before call` at-clauses of the current call were already applied (untracked lock operation)
 	atResTypes     []types.Type
 	siteOrd        map[ssa.Instruction]int
 	siteOrdQ       map[ssa.Instruction]int
